@@ -361,8 +361,13 @@ def run(ck):
                     saved_d = dict(cfg.__dict__)
                     cfg.have_mpi = False; cfg.size = P; cfg.rank = rank; cfg.parallel_level = 1
                     cfg.allreduce = allreduce
+                    reg0 = int(cfg.parallel_region)
                     try:
                         results.append(calc())
+                        if int(cfg.parallel_region) != reg0 or int(cfg.parallel_level) != 1:
+                            ck.fail("regions:left-open", "a library routine returned with its parallel region still open (region count %d -> %d): every later loop "
+                                    "of the run is then entered one level too deep and no longer shares its range" % (reg0, int(cfg.parallel_region)),
+                                    {"processes": P, "rank": rank}, [int(cfg.parallel_region), int(cfg.parallel_level)], [reg0, 1])
                     finally:
                         cfg.__dict__.clear(); cfg.__dict__.update(saved_d)
                     captured.append(mine)
@@ -375,11 +380,14 @@ def run(ck):
         from quantarhei.implementations.python.redfieldrates import ssRedfieldRateMatrix
         for h in range(ck.n(3, 12)):
             Na, Nk = rng.choice([3, 4]), rng.choice([4, 5, 7])
+            if h == 0:
+                Na = 1                     # a single level: nothing to transfer, but the routine is still a parallel region
             rs_ = numpy.random.RandomState(rng.randint(0, 10 ** 6))
             KI = 0.2 + rs_.rand(Nk, Na, Na); KI = 0.5 * (KI + numpy.transpose(KI, (0, 2, 1)))
             cc = 1.0e-3 * (0.5 + rs_.rand(Nk, Na, Na))
             for k_ in range(1 + h % 3):
-                cc[k_, 0, 1] = -4.0e-7 / (KI[k_, 0, 1] * KI[k_, 1, 0])
+                if Na > 1:
+                    cc[k_, 0, 1] = -4.0e-7 / (KI[k_, 0, 1] * KI[k_, 1, 0])
 
             def calc(Na=Na, Nk=Nk, KI=KI, cc=cc):
                 RR = numpy.zeros((Na, Na), dtype=numpy.float64)
